@@ -480,10 +480,36 @@ func chunkLeaves(b []byte, root hash.Hash) (kv.Model, int, error) {
 
 type step struct {
 	Idx int
-	// Kind: "good" (the chunk's bytes) or "ioerr" (the transfer breaks after Cut bytes).
+	// Kind: "good" (the chunk's bytes), "ioerr" (the transfer breaks after Cut bytes) or "cancel" (the chunk's bytes,
+	// but the caller's context turns cancelled at the Cut-th time the restorer consults it).
 	Kind string
 	Cut  int
 }
+
+// countdownCtx is a context that becomes cancelled at the n-th call of Err(): a deterministic stand-in for a caller
+// that gives up (timeout, shutdown) while the chunk is being decoded, verified or imported.
+type countdownCtx struct {
+	context.Context
+	left atomic.Int64
+	done chan struct{}
+	once sync.Once
+}
+
+func newCountdownCtx(n int) *countdownCtx {
+	c := &countdownCtx{Context: context.Background(), done: make(chan struct{})}
+	c.left.Store(int64(n))
+	return c
+}
+
+func (c *countdownCtx) Err() error {
+	if c.left.Add(-1) < 0 {
+		c.once.Do(func() { close(c.done) })
+		return context.Canceled
+	}
+	return nil
+}
+
+func (c *countdownCtx) Done() <-chan struct{} { return c.done }
 
 type result struct {
 	done     bool
@@ -515,7 +541,16 @@ func restoreOne(rs checkpoint.Restorer, idx int, r io.Reader) (res result) {
 	return
 }
 
-func runStep(rs checkpoint.Restorer, s step, chunks [][]byte) result {
+func runStep(rs checkpoint.Restorer, s step, chunks [][]byte) (res result) {
+	if s.Kind == "cancel" {
+		defer func() {
+			if p := recover(); p != nil {
+				res.panicked = p
+			}
+		}()
+		res.done, res.err = rs.RestoreChunk(newCountdownCtx(s.Cut), uint64(s.Idx), bytes.NewReader(chunks[s.Idx]))
+		return
+	}
 	if s.Kind == "ioerr" {
 		return restoreOne(rs, s.Idx, &brokenReader{data: chunks[s.Idx][:s.Cut]})
 	}
@@ -557,7 +592,8 @@ func runPhase(rs checkpoint.Restorer, steps []step, chunks [][]byte, k int) []re
 	return res
 }
 
-func genPlan(t *rapid.T, chunks [][]byte, tag string) []step {
+// cancels: 0 = no cancelled calls, 1 = cancellation at any point, 2 = only after the proof has been verified (node import).
+func genPlan(t *rapid.T, chunks [][]byte, tag string, cancels int) []step {
 	n := len(chunks)
 	var order []int
 	switch rapid.IntRange(0, 5).Draw(t, tag+"Order") {
@@ -596,6 +632,22 @@ func genPlan(t *rapid.T, chunks [][]byte, tag string) []step {
 		}
 		insert(step{Idx: idx, Kind: "ioerr", Cut: rapid.IntRange(0, len(chunks[idx])-1).Draw(t, tag+"Cut")})
 	}
+	if cancels > 0 {
+		for i, nc := 0, rapid.IntRange(0, 2).Draw(t, tag+"Cancels"); i < nc; i++ {
+			idx := rapid.IntRange(0, n-1).Draw(t, tag+"CancelIdx")
+			ne := 1
+			if ents, err := decodeChunk(chunks[idx]); err == nil {
+				ne = len(ents) + 1
+			}
+			// The restorer consults the context once per entry while decoding and once per entry while verifying the
+			// proof (steers the generator only; the oracle accepts whatever a cancelled call returns).
+			lo := 0
+			if cancels == 2 {
+				lo = 2*ne + 2
+			}
+			insert(step{Idx: idx, Kind: "cancel", Cut: rapid.IntRange(lo, 4*ne+8).Draw(t, tag+"CancelAt")})
+		}
+	}
 	return plan
 }
 
@@ -605,6 +657,9 @@ type restoreState struct {
 	pending map[int]bool
 	// firstOK is the order in which chunks were first restored successfully.
 	firstOK []int
+	// abortedByCancel: a cancelled call ended the whole restore (the restorer treats a cancellation noticed while the
+	// proof is verified as a verification failure); the caller has to start over.
+	abortedByCancel bool
 }
 
 func newRestoreState(n int) *restoreState {
@@ -640,6 +695,17 @@ func judge(st *restoreState, steps []step, res []result, k int, deep bool, label
 			}
 			pend := st.active && st.pending[s.Idx]
 			switch {
+			case s.Kind == "cancel" && r.err != nil:
+				// A cancelled call may fail in any way; the chunk stays pending and can be offered again - unless the
+				// restorer gave the whole restore up, which the caller is told by the error class.
+				label("cancelled-call:" + errName(r.err))
+				if r.done {
+					return &verdict{"restore-done-flag", fmt.Sprintf("step %d: cancelled call for chunk %d failed (%v) but reported done", i, s.Idx, r.err)}
+				}
+				if pend && errors.Is(r.err, checkpoint.ErrChunkProofVerificationFailed) {
+					st.active = false
+					st.abortedByCancel = true
+				}
 			case s.Kind == "ioerr":
 				if r.err == nil {
 					return &verdict{"truncated-chunk-accepted", fmt.Sprintf("step %d: chunk %d cut after %d bytes was accepted", i, s.Idx, s.Cut)}
@@ -1033,7 +1099,7 @@ func dumpModel(m kv.Model) string {
 
 const ruleRoundTrip = "case = contents (empty, single leaf, prefix chains up to 150 nested keys, bit combs, prefix-heavy universes of 1..300 keys quick / ..3000 thorough) committed on a source backend " +
 	"as a 1-3 version history (optionally pruned), CreateCheckpoint with chunk size in {1,2,7,64,512,4096,2^20,MaxUint64} and chunker threads in {0,1,2,3,8,16,32}, restored into an empty on-disk/in-memory " +
-	"target backend by a plan: permutation of the chunk indices plus duplicates and transfers that break mid-chunk (retry), optionally a first attempt aborted (AbortRestore+AbortMultipartInsert) and restarted from scratch, " +
+	"target backend by a plan: permutation of the chunk indices plus duplicates, transfers that break mid-chunk (retry) and calls whose context turns cancelled at a drawn point of decoding, verification or node import (the chunk stays pending and is offered again; if the restorer gives the whole restore up the harness starts over), optionally a first attempt aborted (AbortRestore+AbortMultipartInsert) and restarted from scratch, " +
 	"each phase run by k=1..4 callers released together by a barrier; oracle: with one caller every pending honest chunk is accepted, a broken transfer is rejected and stays retryable, done is reported exactly with the last pending chunk; " +
 	"with several callers only ErrChunkAlreadyRestored/ErrNoRestoreInProgress are tolerated for losers; after Finalize HasRoot holds, the version has no other root, a full scan equals the source contents, the reference root of " +
 	"the scanned contents equals the checkpointed root, (on disk) the same after close+reopen, and a generated commit on top as the next version hashes to the reference root, reads back, leaves the restored root intact and " +
@@ -1129,6 +1195,12 @@ func TestC12RoundTrip(t *testing.T) {
 			from := 0
 			for _, to := range cuts {
 				k := rapid.SampledFrom([]int{1, 1, 1, 2, 3, 4}).Draw(t, tag+"K")
+				for _, s := range plan[from:to] {
+					if s.Kind == "cancel" {
+						k = 1 // cancelled calls are judged by the exact (sequential) model only
+						rec.Label("cancelled-call-in-plan")
+					}
+				}
 				trace = append(trace, fmt.Sprintf("%s phase k=%d steps=%v", tag, k, plan[from:to]))
 				res := runPhase(rs, plan[from:to], cp.chunks, k)
 				if v := judge(st, plan[from:to], res, k, deep, rec.Label); v != nil {
@@ -1155,7 +1227,7 @@ func TestC12RoundTrip(t *testing.T) {
 				contentSig = sigRestart
 			}
 			startAttempt()
-			plan := genPlan(t, cp.chunks, "a")
+			plan := genPlan(t, cp.chunks, "a", 0)
 			plan = plan[:rapid.IntRange(0, len(plan)).Draw(t, "abortAfter")]
 			st := newRestoreState(n)
 			runPlan(st, plan, "aborted")
@@ -1178,9 +1250,30 @@ func TestC12RoundTrip(t *testing.T) {
 		if cur := rs.GetCurrentCheckpoint(); cur == nil || cur.Root != meta.Root || len(cur.Chunks) != n {
 			fail("restore-state", "GetCurrentCheckpoint after StartRestore: %+v", cur)
 		}
-		plan := genPlan(t, cp.chunks, "p")
+		// Cancelled calls: on pathbadger a restore that was given up cannot be restarted while finding
+		// pathbadger-multipart-restart is excluded, so there only cancellations after the verification are drawn.
+		cancels := 1
+		if dstBackend == "pathbadger" && ev.Excluded(sigRestart) {
+			cancels = 2
+		}
+		plan := genPlan(t, cp.chunks, "p", cancels)
 		st := newRestoreState(n)
 		runPlan(st, plan, "final")
+		if st.abortedByCancel {
+			// the restorer gave the restore up because of a cancelled call: start over and restore everything
+			rec.Label("restore-given-up-after-cancelled-call")
+			if cancels == 2 {
+				rec.Discard("cancelled-call-aborted-restore:excluded:" + sigRestart)
+				return
+			}
+			if err := dst.AbortMultipartInsert(); err != nil {
+				fail("abort-failed", "AbortMultipartInsert after a restore given up by the restorer: %v", err)
+			}
+			trace = append(trace, "restore given up by the restorer after a cancelled call; restart")
+			startAttempt()
+			st = newRestoreState(n)
+			runPlan(st, genPlan(t, cp.chunks, "r", 0), "restarted")
+		}
 		if st.active || len(st.pending) != 0 {
 			ev.Infra(t, "plan did not restore every chunk: %+v", st)
 		}
